@@ -9,6 +9,7 @@ import (
 	"sort"
 	"strconv"
 	"strings"
+	"sync"
 	"time"
 )
 
@@ -55,6 +56,7 @@ func main() {
 	solverBin := fs.String("solver", "z3", "solver binary")
 	timeout := fs.Int("timeout-ms", 60000, "per-query timeout")
 	verbose := fs.Bool("v", false, "verbose")
+	parH := fs.Int("par", 3, "harness runs executed concurrently")
 	file := fs.String("file", "", "replay file")
 	stepLimit := fs.Int64("step-limit", 0, "instruction budget per path")
 	params := paramFlags{}
@@ -79,6 +81,10 @@ func main() {
 	eng.timeoutMs = *timeout
 	eng.seed = seed
 	eng.workers = *workers
+	eng.parallelHarness = *parH
+	if eng.parallelHarness < 1 {
+		eng.parallelHarness = 1
+	}
 	if b, err := os.ReadFile(filepath.Join(*verif, "known_findings.json")); err == nil {
 		var kf struct {
 			Findings []KnownFinding `json:"findings"`
@@ -173,108 +179,146 @@ func runCheck(eng *engine, prop, tier string, ps *PropSpec, verif string, seed i
 	validated := 0
 	confirmedViolations := 0
 	replayDir := filepath.Join(verif, "replays")
-	for _, spec := range specs {
-		h, err := eng.newRun(spec)
-		if err != nil {
-			fmt.Println("INCONCLUSIVE", prop, err)
-			inconclusive = append(inconclusive, err.Error())
-			continue
-		}
-		runs = append(runs, h)
-		opts := exploreOpts{maxPaths: spec.MaxPaths}
-		if spec.TimeoutSec > 0 {
-			opts.deadline = time.Now().Add(time.Duration(spec.TimeoutSec) * time.Second)
-		}
-		eng.explore(h, opts)
-		tag := h.name
-		if h.config != "" {
-			tag += "[" + h.config + "]"
-		}
-		nObl, nDis := 0, 0
-		for _, c := range h.obligations {
-			nObl += c
-		}
-		for _, c := range h.discharged {
-			nDis += c
-		}
-		fmt.Printf("%s %s: paths=%d %v instr=%d sched-points=%d obligations=%d discharged=%d queries(sat=%d unsat=%d unknown=%d err=%d) solver=%.1fs wall=%.1fs exhausted=%v\n",
-			prop, tag, h.paths, h.pathsByStatus, h.steps, h.transitions, nObl, nDis, h.solver.Sat, h.solver.Unsat, h.solver.Unknown, h.solver.Errors, h.solver.Seconds, h.wall, h.exhausted)
-		for _, em := range h.errors {
-			fmt.Printf("  engine error: %s\n", em)
-			inconclusive = append(inconclusive, tag+": engine error: "+em)
-		}
-		if !h.exhausted && len(h.violations) == 0 && len(h.errors) == 0 {
-			inconclusive = append(inconclusive, tag+": exploration not exhausted (path/time limit)")
-		}
-		if h.stepLimitHits > 0 {
-			inconclusive = append(inconclusive, fmt.Sprintf("%s: %d paths hit the instruction budget (unwinding failure)", tag, h.stepLimitHits))
-		}
-		for l, c := range h.inconclusive {
-			inconclusive = append(inconclusive, fmt.Sprintf("%s: assertion %q undecided on %d paths (solver unknown)", tag, l, c))
-		}
-		if h.solver.Errors > 0 {
-			inconclusive = append(inconclusive, fmt.Sprintf("%s: %d solver errors", tag, h.solver.Errors))
-		}
-		// witnesses (vacuity guard)
-		var labels []string
-		for l := range h.witnesses {
-			labels = append(labels, l)
-		}
-		sort.Strings(labels)
-		for _, l := range labels {
-			w := h.witnesses[l]
-			ok, why := eng.replayRecord(h, &w)
-			if ok {
-				validated++
-				h.witnessOK[l] = true
-			} else {
-				inconclusive = append(inconclusive, fmt.Sprintf("%s: witness %q does not replay: %s", tag, l, why))
+	var outMu sync.Mutex
+	sem := make(chan struct{}, eng.parallelHarness)
+	var wgAll sync.WaitGroup
+	runs = make([]*harnessRun, len(specs))
+	for si, spec := range specs {
+		wgAll.Add(1)
+		sem <- struct{}{}
+		go func(si int, spec HarnessSpec) {
+			defer wgAll.Done()
+			defer func() { <-sem }()
+			var out strings.Builder
+			var incl []string
+			var viol []string
+			nValidated, nConfirmed := 0, 0
+			var hr *harnessRun
+			func() {
+				h, err := eng.newRun(spec)
+				if err != nil {
+					fmt.Fprintln(&out, "INCONCLUSIVE", prop, err)
+					incl = append(incl, err.Error())
+					return
+				}
+				hr = h
+				opts := exploreOpts{maxPaths: spec.MaxPaths}
+				if spec.TimeoutSec > 0 {
+					opts.deadline = time.Now().Add(time.Duration(spec.TimeoutSec) * time.Second)
+				}
+				eng.explore(h, opts)
+				tag := h.name
+				if h.config != "" {
+					tag += "[" + h.config + "]"
+				}
+				nObl, nDis := 0, 0
+				for _, c := range h.obligations {
+					nObl += c
+				}
+				for _, c := range h.discharged {
+					nDis += c
+				}
+				fmt.Fprintf(&out, "%s %s: paths=%d %v instr=%d sched-points=%d obligations=%d discharged=%d queries(sat=%d unsat=%d unknown=%d err=%d) solver=%.1fs wall=%.1fs exhausted=%v\n",
+					prop, tag, h.paths, h.pathsByStatus, h.steps, h.transitions, nObl, nDis, h.solver.Sat, h.solver.Unsat, h.solver.Unknown, h.solver.Errors, h.solver.Seconds, h.wall, h.exhausted)
+				for _, em := range h.errors {
+					fmt.Fprintf(&out, "  engine error: %s\n", em)
+					incl = append(incl, tag+": engine error: "+em)
+				}
+				if !h.exhausted && len(h.violations) == 0 && len(h.errors) == 0 {
+					incl = append(incl, tag+": exploration not exhausted (path/time limit)")
+				}
+				if h.stepLimitHits > 0 {
+					incl = append(incl, fmt.Sprintf("%s: %d paths hit the instruction budget (unwinding failure)", tag, h.stepLimitHits))
+				}
+				for l, c := range h.inconclusive {
+					incl = append(incl, fmt.Sprintf("%s: assertion %q undecided on %d paths (solver unknown)", tag, l, c))
+				}
+				if h.solver.Errors > 0 {
+					incl = append(incl, fmt.Sprintf("%s: %d solver errors", tag, h.solver.Errors))
+				}
+				// witnesses (vacuity guard)
+				var labels []string
+				for l := range h.witnesses {
+					labels = append(labels, l)
+				}
+				sort.Strings(labels)
+				for _, l := range labels {
+					w := h.witnesses[l]
+					ok, why := eng.replayRecord(h, &w)
+					if ok {
+						nValidated++
+						h.witnessOK[l] = true
+					} else {
+						incl = append(incl, fmt.Sprintf("%s: witness %q does not replay: %s", tag, l, why))
+					}
+				}
+				need := spec.Reach
+				if len(need) == 0 && len(h.violations) == 0 {
+					if len(h.witnessOK) == 0 {
+						incl = append(incl, tag+": no reachability witness (vacuous harness?)")
+					}
+				}
+				for _, l := range need {
+					if !h.witnessOK[l] && len(h.violations) == 0 {
+						incl = append(incl, fmt.Sprintf("%s: required witness %q not reached (vacuous)", tag, l))
+					}
+				}
+				// violations
+				seen := map[string]bool{}
+				for i := range h.violations {
+					v := h.violations[i]
+					if seen[v.Label] {
+						continue
+					}
+					seen[v.Label] = true
+					ok, why := eng.replayRecord(h, &v)
+					if !ok {
+						incl = append(incl, fmt.Sprintf("%s: counterexample for %q did not replay: %s", tag, v.Label, why))
+						continue
+					}
+					nValidated++
+					nConfirmed++
+					name := fmt.Sprintf("%s_%s_%s_%s.json", prop, h.name, sanitize(h.config), sanitize(v.Label))
+					path := filepath.Join(replayDir, name)
+					rf := struct {
+						Violation
+						Spec HarnessSpec `json:"spec"`
+					}{v, h.spec}
+					if err := writeJSON(path, rf); err != nil {
+						fmt.Fprintln(os.Stderr, "cannot write replay:", err)
+					}
+					fmt.Fprintf(&out, "  counterexample %s label=%q: %s\n    values=%s notes=%v\n", tag, v.Label, v.Msg, shortVals(v.Values), v.Notes)
+					viol = append(viol, fmt.Sprintf("VIOLATION property=%s replay=%s", prop, path))
+				}
+				for k := range h.knownHits {
+					outMu.Lock()
+					first := !knownPrinted[k]
+					knownPrinted[k] = true
+					outMu.Unlock()
+					if first {
+						fmt.Fprintf(&out, "KNOWN-FINDING: property=%s %s [%s/%s %s]\n", k.Property, k.What, k.Harness, k.Label, k.Where)
+					}
+				}
+			}()
+			outMu.Lock()
+			fmt.Print(out.String())
+			runs[si] = hr
+			inconclusive = append(inconclusive, incl...)
+			violLines = append(violLines, viol...)
+			validated += nValidated
+			confirmedViolations += nConfirmed
+			outMu.Unlock()
+		}(si, spec)
+	}
+	wgAll.Wait()
+	{
+		var rr []*harnessRun
+		for _, r := range runs {
+			if r != nil {
+				rr = append(rr, r)
 			}
 		}
-		need := spec.Reach
-		if len(need) == 0 && len(h.violations) == 0 {
-			if len(h.witnessOK) == 0 {
-				inconclusive = append(inconclusive, tag+": no reachability witness (vacuous harness?)")
-			}
-		}
-		for _, l := range need {
-			if !h.witnessOK[l] && len(h.violations) == 0 {
-				inconclusive = append(inconclusive, fmt.Sprintf("%s: required witness %q not reached (vacuous)", tag, l))
-			}
-		}
-		// violations
-		seen := map[string]bool{}
-		for i := range h.violations {
-			v := h.violations[i]
-			if seen[v.Label] {
-				continue
-			}
-			seen[v.Label] = true
-			ok, why := eng.replayRecord(h, &v)
-			if !ok {
-				inconclusive = append(inconclusive, fmt.Sprintf("%s: counterexample for %q did not replay: %s", tag, v.Label, why))
-				continue
-			}
-			validated++
-			confirmedViolations++
-			name := fmt.Sprintf("%s_%s_%s.json", prop, h.name, sanitize(v.Label))
-			path := filepath.Join(replayDir, name)
-			out := struct {
-				Violation
-				Spec HarnessSpec `json:"spec"`
-			}{v, h.spec}
-			if err := writeJSON(path, out); err != nil {
-				fmt.Fprintln(os.Stderr, "cannot write replay:", err)
-			}
-			fmt.Printf("  counterexample %s label=%q: %s\n    values=%s notes=%v\n", tag, v.Label, v.Msg, shortVals(v.Values), v.Notes)
-			violLines = append(violLines, fmt.Sprintf("VIOLATION property=%s replay=%s", prop, path))
-		}
-		for k := range h.knownHits {
-			if !knownPrinted[k] {
-				knownPrinted[k] = true
-				fmt.Printf("KNOWN-FINDING: property=%s %s [%s/%s %s]\n", k.Property, k.What, k.Harness, k.Label, k.Where)
-			}
-		}
+		runs = rr
 	}
 	wall := time.Since(t0).Seconds()
 	if !dev {
